@@ -74,6 +74,8 @@ type vCase struct {
 	states map[string]struct{}
 	orders map[string]struct{}
 	full   bool // keep the whole event log in the result (replay mode)
+
+	leftover bool
 }
 
 func vSubSeed(seed uint64, prop string, i int) uint64 {
@@ -194,10 +196,70 @@ func (c *vCase) Bubble(f func()) {
 		prev := runtime.GOMAXPROCS(1)
 		defer runtime.GOMAXPROCS(prev)
 	}
+	defer func() {
+		// synctest reports goroutines left blocked in the bubble by panicking in
+		// the caller; vLeftover has already recorded them with their stacks
+		if r := recover(); r != nil {
+			if s, ok := r.(string); ok && strings.Contains(s, "blocked goroutines remain") && c.leftover {
+				return
+			}
+			panic(r)
+		}
+	}()
 	synctest.Test(c.T, func(t *testing.T) {
 		defer c.recoverPanic()
-		f()
+		func() {
+			defer c.recoverPanic()
+			f()
+		}()
+		c.vLeftover()
 	})
+}
+
+// vLeftover runs at the end of a bubble, after the case has torn everything
+// down: any goroutine still in the bubble is a leak. Library goroutines are a
+// violation (attributed by their first library frame), anything else is a
+// harness error.
+func (c *vCase) vLeftover() {
+	synctest.Wait()
+	gs := vGoroutinesInBubble()
+	// goroutines that merely sleep (announce retry jitter, mocknet timers) finish on their own
+	for i := 0; i < 8 && len(gs) > 0; i++ {
+		time.Sleep(2 * time.Second)
+		synctest.Wait()
+		gs = vGoroutinesInBubble()
+	}
+	if d := os.Getenv("VERIF_DUMP"); d != "" {
+		vDumpAll(d)
+	}
+	if len(gs) == 0 {
+		return
+	}
+	c.leftover = true
+	lib := vLibGoroutines(gs)
+	if len(lib) > 0 {
+		where := "unknown"
+		lines := strings.Split(lib[0], "\n")
+		for i := 1; i+1 < len(lines); i += 2 {
+			fn := strings.TrimPrefix(lines[i], "created by ")
+			if strings.HasPrefix(fn, "github.com/libp2p/go-libp2p-pubsub") && !strings.Contains(lines[i+1], "_test.go") {
+				if j := strings.LastIndex(fn, "("); j > 0 {
+					fn = fn[:j]
+				}
+				if j := strings.Index(fn, " in goroutine"); j > 0 {
+					fn = fn[:j]
+				}
+				where = fn
+				break
+			}
+		}
+		c.Violatef(map[string]string{"kind": "goroutine_leak", "where": where}, "%d library goroutine(s) still alive after shutdown (of %d in the bubble):\n%s", len(lib), len(gs), strings.Join(lib[:min(3, len(lib))], "\n\n"))
+		return
+	}
+	c.mu.Lock()
+	c.res.Verdict = "harness_error"
+	c.res.Inconclusive = fmt.Sprintf("%d goroutine(s) left in the bubble:\n%s", len(gs), strings.Join(gs[:min(4, len(gs))], "\n\n"))
+	c.mu.Unlock()
 }
 
 func (c *vCase) recoverPanic() {
@@ -443,6 +505,9 @@ func vGoroutinesInBubble() []string {
 	for _, g := range gs[1:] {
 		s := string(g)
 		if vBubbleOf(s) == bubble {
+			if strings.Contains(s, "testing/synctest.testingSynctestTest") || strings.Contains(s, "internal/synctest.Run") {
+				continue // the bubble's own scaffolding
+			}
 			out = append(out, s)
 		}
 	}
